@@ -30,7 +30,7 @@ def cssStep (fns : List String) : List String :=
   fns.filter fun f =>
     match cssCtx.func? f with
     | some fn => acheck { closedFns := fns, closedRes := cssCleanRes } 64 false false false false
-        (cssGlobals.set fn.param (.covS .param)) fn.body
+        (cssGlobals.set fn.param (.covS .param)) [] fn.body
     | none => false
 
 def cssIter : Nat → List String → List String
@@ -52,9 +52,7 @@ set_option maxRecDepth 1000000 in
 /-- the handler functions the analysis does not accept, by name -/
 theorem css_unanalysed :
     (Gen.cssFuncs.map (·.name)).filter (fun f => !cssClosed.contains f) =
-      ["BackgroundHandler", "BackgroundSizeHandler", "BorderSideRadiusHandler", "BoxShadowHandler", "FilterHandler",
-       "FontHandler", "GridHandler", "PerspectiveOriginHandler", "TextShadowHandler", "TransformHandler",
-       "TransformOriginHandler"] := by decide
+      ["BackgroundHandler", "BorderSideRadiusHandler", "FilterHandler", "FontHandler", "GridHandler", "TransformHandler"] := by decide
 
 /-- the hostile bytes are outside the alphabet of the clean regexps -/
 theorem inertQ_excludes : ∀ c ∈ [92, 60, 62, 64, 59, 123, 125], Re.inRanges c inertQ = false := by decide
@@ -120,9 +118,8 @@ set_option maxRecDepth 1000000 in
 /-- the properties of the table whose handler the analysis does not accept -/
 theorem css_table_unanalysed :
     (Gen.defaultStyleHandlers.filter fun e => !cssA.closedFns.contains e.2).map (·.1) =
-      [b!"background", b!"background-size", b!"border-bottom-left-radius", b!"border-bottom-right-radius",
-       b!"border-top-left-radius", b!"border-top-right-radius", b!"box-shadow", b!"filter", b!"font", b!"grid",
-       b!"perspective-origin", b!"text-shadow", b!"transform", b!"transform-origin"] := by decide
+      [b!"background", b!"border-bottom-left-radius", b!"border-bottom-right-radius",
+       b!"border-top-left-radius", b!"border-top-right-radius", b!"filter", b!"font", b!"grid", b!"transform"] := by decide
 
 set_option maxRecDepth 1000000 in
 /-- non-vacuity: `color` is in the table, its handler is accepted, and it accepts something -/
